@@ -256,6 +256,9 @@ def parse_const(c):
     m = re.search(r'::promoted\[(\d+)\]$', c)
     if m:
         return ('promoted', int(m.group(1)))
+    m = re.match(r'^\{(alloc\d+)(\+0x[0-9a-f]+)?: .*\}$', c)
+    if m and not m.group(2):
+        return ('alloc', m.group(1))
     if re.match(r'^(char::MAX|core::char::MAX|std::char::MAX|std::char::methods::<impl char>::MAX|core::char::methods::<impl char>::MAX)$', c):
         return ('int', 32, 0x10FFFF, False)
     if re.match(r'^(u32::MAX|core::u32::MAX)$', c):
@@ -346,7 +349,15 @@ def parse_rvalue(s):
             return ('tuple', tuple(parse_operand(x) for x in split_top(inner)))
     if s.startswith('{closure@') or s.startswith('{coroutine@'):
         j = match_bracket(s, 0)
-        return ('closure', s[:j + 1], ())
+        rest = s[j + 1:].strip()
+        caps = []
+        if rest.startswith('{') and rest.endswith('}'):
+            inner = rest[1:-1].strip()
+            if inner:
+                for f in split_top(inner):
+                    k = f.index(':')
+                    caps.append((f[:k].strip(), parse_operand(f[k + 1:])))
+        return ('closure', s[:j + 1], tuple(caps))
     # struct aggregate:  Path { f: op, ... }
     if s.endswith('}'):
         i = s.find(' {')
@@ -502,12 +513,13 @@ def _find_assign(s):
 
 class Fn:
     __slots__ = ('name', 'key', 'nargs', 'blocks', 'locals', 'self_type', 'ret_type', 'arg_types',
-                 'kind', 'promoted_of', 'promoted_idx', 'text_line', 'debug')
+                 'kind', 'promoted_of', 'promoted_idx', 'text_line', 'debug', 'allocs')
 
     def __init__(self):
         self.blocks = {}
         self.locals = {}
         self.debug = {}
+        self.allocs = {}
         self.kind = 'fn'
         self.promoted_of = None
         self.promoted_idx = None
@@ -571,6 +583,9 @@ def parse_mir(text):
                     f.promoted_of = mp.group(1)
                     f.promoted_idx = int(mp.group(2))
         if f is None:
+            ma = re.match(r'^(alloc\d+) \(static: ([^,]+),', l)
+            if ma and fns:
+                fns[-1].allocs[ma.group(1)] = ma.group(2).strip()
             i += 1
             continue
         f.text_line = i + 1
